@@ -77,8 +77,8 @@ PLAN["C01"] = {
 }
 
 PLAN["C02"] = {
-    "quick": ["allocb_q_", "alloc1_q_", "allocf_q_", "allocm_q_", "rm_q_"],
-    "thorough": ["allocb_t_", "alloc1_t_", "allocf_t_", "allocm_t_", "rm_t_", "clear_"],
+    "quick": ["allocb_q_", "alloc1_q_", "allocf_q_", "allocm_q_", "allocs_q_", "rm_q_"],
+    "thorough": ["allocb_t_", "alloc1_t_", "allocf_t_", "allocm_t_", "allocs_t_", "rm_t_", "clear_"],
     "bounds": {"quick": "slots<=3, free<=2, batch<=2", "thorough": "slots<=4, free<=4, batch<=3; batch <,=,> free list all instantiated"},
     "outside": ["generation counter wrap at 2^64 (generations assumed < u64::MAX)"],
     "level_text": "Bounded model checking, one-step inductive: from any allocator state of the shape, one real operation; every returned identifier has a generation above everything ever issued for its slot (or a fresh index), an arbitrary probe identifier (any index, any generation, i.e. every stale identifier, not only the latest) keeps resolving iff it was live and is not the target, and never starts resolving unless it was just returned.",
@@ -114,8 +114,8 @@ PLAN["C13"] = {
 
 PLAN["C01"]["quick"] += ["world_q_"]
 PLAN["C01"]["thorough"] += ["world_t_"]
-PLAN["C13"]["quick"] += ["world_q_", "allocc_q_", "tbl_q_"]
-PLAN["C13"]["thorough"] += ["world_t_", "allocc_t_", "tbl_t_"]
+PLAN["C13"]["quick"] += ["world_q_", "allocc_q_", "tbl_q_", "allocs_q_"]
+PLAN["C13"]["thorough"] += ["world_t_", "allocc_t_", "tbl_t_", "allocs_t_"]
 PLAN["C13"]["stubs"] = ["hashbrown -> /verif/models/hashbrown (E2) for the world_/allocc_ harnesses", "fnv -> constant hasher (hash values are ignored by the hashbrown model)"]
 PLAN["C02"]["quick"] += ["world_q_"]
 PLAN["C02"]["thorough"] += ["allocc_"]
@@ -153,10 +153,10 @@ PLAN["C16"] = {
 }
 
 PLAN["C18"] = {
-    "quick": ["batch_q_", "dupnew_q_", "dupres_q_", "dupdef_q_", "nodup_q_"],
-    "thorough": ["batch_t_", "dupnew_t_", "dupres_t_", "dupdef_t_", "nodup_t_"],
+    "quick": ["batch_q_", "dupnew_q_", "dupres_q_", "dupdef_q_", "nodup_q_", "dupde_q_", "nodupde_q_"],
+    "thorough": ["batch_t_", "dupnew_t_", "dupres_t_", "dupdef_t_", "nodup_t_", "dupde_t_"],
     "bounds": {"quick": "batches of 1..3 columns with symbolic lengths 0..=3; registries of length 2,3 (all position pairs) and 9 (7,8)", "thorough": "batches of 1..4 columns; registries of length 2..5 (all position pairs), length 9 pairs straddling the byte boundary"},
-    "outside": ["registry lengths 6..8", "World::deserialize with a duplicated registry (not built)"],
+    "outside": ["registry lengths 6..8", "World::deserialize is exercised on the empty-world stream only"],
     "stubs": ["hashbrown -> /verif/models/hashbrown (E2): HashSet<TypeId> used by the duplicate check", "fnv -> constant hasher"],
     "level_text": "Bounded model checking: Batch::new returns iff all (symbolic) column lengths are equal and otherwise panics (the statement after the constructor is unreachable for every ragged input); every World constructor panics for every instantiated registry with a duplicated component and returns for duplicate-free ones. The registry family is instantiated exhaustively up to the bound, not solver-quantified.",
     "level_note": KANI_NOTE,
